@@ -25,6 +25,7 @@ package allocator
 //@   modifies nothing
 //@   ensures err == nil ==> result.prefixLen == prefixLength
 //@   ensures err == nil ==> result != nil && fresh(result) && result.nonnil && result.distinct
+//@   ensures err == nil ==> fresh(result.allocated) && fresh(result.indexToSubscriber) && fresh(result.bitmap) && fresh(result.allocatedCount)
 //@   ensures err == nil ==> result.fwd && result.rev && result.bits && result.cnt
 //@   ensures err == nil ==> result.total
 //@   ensures err == nil ==> card(result.allocated) == 0 && forall i mathint :: !bit(result.bitmap, i)
@@ -49,13 +50,17 @@ package allocator
 //@   ensures err == nil ==> a.cnt
 //@   ensures err == nil ==> a.total
 // ... and what it establishes relative to the document (round trip with MarshalJSON)
-//@   ensures err == nil && !json_map_nil(doc(data), "allocated") ==> a.allocated != nil && dom(a.allocated) == json_strmap_dom(doc(data), "allocated") && vals(a.allocated) == json_strmap_val(doc(data), "allocated")
-//@   ensures err == nil && !json_map_nil(doc(data), "allocated") ==> card(a.allocated) == json_map_len(doc(data), "allocated") && bigval(a.allocatedCount) == card(a.allocated)
+//@   ensures err == nil && !json_map_nil(doc(data), "allocated") ==> a.allocated != nil
+//@   ensures err == nil && !json_map_nil(doc(data), "allocated") ==> forall s string :: s in a.allocated ==> s in json_strmap_dom(doc(data), "allocated")
+//@   ensures err == nil && !json_map_nil(doc(data), "allocated") ==> forall s string :: s in json_strmap_dom(doc(data), "allocated") ==> s in a.allocated
+//@   ensures err == nil && !json_map_nil(doc(data), "allocated") ==> forall s string :: s in a.allocated ==> a.allocated[s] == json_strmap_val(doc(data), "allocated")[s]
+//@   ensures err == nil ==> bigval(a.allocatedCount) == card(a.allocated)
 //@   ensures err == nil ==> a.prefixLen == json_int(doc(data), "prefix_length")
 
 //@ loop IPAllocator.UnmarshalJSON#1
 //@   invariant alloc != nil && alloc != a && alloc.nonnil && alloc.distinct && alloc.total
 //@   invariant forall s string :: s in alloc.allocated ==> s in visited
+//@   invariant forall s string :: s in visited ==> s in state.Allocated && s in alloc.allocated && alloc.allocated[s] == state.Allocated[s]
 //@   invariant alloc.fwd && alloc.rev && alloc.bits
 //@   invariant alloc.cnt
 
